@@ -655,4 +655,17 @@ Section Live.
     intros HI HS Hst. cbn in Hst. destruct (runs s t) eqn:Er; try discriminate. inv Hst. cbn. rewrite upd_same.
     split; [apply (s2 s HS t Er)|reflexivity].
   Qed.
+  (** ... and an attempt ends only when the retry command re-arms that very task *)
+  Theorem quiet_started_kept s l s' t : stepq s l = Some s' -> started s t = true -> l <> Rearm t -> started s' t = true.
+  Proof.
+    intros HS Hst Hl. destruct l; cbn in HS;
+      try (repeat match goal with
+             | H : match ?x with _ => _ end = Some _ |- _ => destruct x eqn:?; try discriminate
+             end; inv HS; cbn; rewrite ?started_initial_q; try exact Hst; fail).
+    - destruct (runs s t0); try discriminate. inv HS. cbn.
+      destruct (Z.eq_dec t t0) as [->|Hne]; [rewrite upd_same; reflexivity|rewrite upd_other by exact Hne; exact Hst].
+    - destruct (ph s); try discriminate. destruct (store s t0); try discriminate.
+      destruct (existsb (Z.eqb t0) tasks); [|discriminate]. inv HS. cbn.
+      destruct (Z.eq_dec t t0) as [->|Hne]; [congruence|rewrite upd_other by exact Hne; exact Hst].
+  Qed.
 End Live.
